@@ -1,101 +1,111 @@
-"""C14 — runaway and over-deep scripts are stopped and the engine recovers (DESIGN.md 7.4)."""
-import itertools
+"""C14 — runaway and over-deep scripts are stopped and the engine recovers (DESIGN.md 7.4, notes/C14-design.md).
+
+Proof side: lean/MorfuseModel/Props/C14.lean (guard arithmetic + the theorems about the unwind model
+lean/MorfuseModel/Unwind/Model.lean).  Tie: every scenario is run on the real engine (harness/engine.cpp in
+its `c14reset` observation mode, injected clock H1) and on the compiled unwind model (`driver unwind`), and
+the answers are compared line by line: outcome class of every host call, `m_CurrentThread` /
+`m_PreviousThread` set or not, `ScriptExecutionStack::stackDepth`, instance / thread / VM pool counters, timer
+length, the injected clock (= number of opcodes executed), markers printed (sentinel order) and what reached
+each diagnostic stream (Debug / Warn / Error blocks, Verbose frame depths)."""
 import os
 
 from vlib import common
 from vlib.common import Diff, LEAN
-from vlib import schedcheck
+from vlib import schedcheck, unwindgen
 
-AREA = "guard"
+AREA = "unwind"
 PROPS_MODULE = "MorfuseModel.Props.C14"
 PROPS_FILE = os.path.join(LEAN, "MorfuseModel", "Props", "C14.lean")
 
 TRUSTED = [
     "Lean 4.33.0 kernel; axioms propext / Classical.choice / Quot.sound only (audited on every run)",
-    "hand-written guard model lean/MorfuseModel/Sched/Guard.lean of ScriptVM::Execute/Process time check and ScriptExecutionStack",
-    "the composite scenario `c14` in harness/engine.cpp (sentinel thread, runaway program, recovery observations) and the program templates below",
+    "hand-written unwind model lean/MorfuseModel/Unwind/Model.lean (transcription of ScriptVM::Execute/Process, HandleScriptException[Abort], ScriptExecutionStack, ScriptThread::Execute/ScriptExecuteInternal/Resume, ScriptMaster::ExecuteRunning/ExecuteThread, ScriptContext::Execute) and guard model Sched/Guard.lean; tied to the engine only through the scenarios below",
+    "renderer tools/vlib/unwindgen.py: script text and opcode-level abstract program of each statement template (a wrong opcode count shows as a `clk` difference)",
+    "harness/engine.cpp `c14reset` observation mode (reads m_CurrentThread, m_PreviousThread, stackDepth, pool counters with -fno-access-control; counts diagnostic blocks per stream)",
     "hook H1: injected clock that advances a fixed amount per reading stands for real time passing while a script runs",
 ]
 ASSUME = [
-    "the recovery clauses (no crash whatever streams are attached, scheduler still resumes a waiting thread, new host call, reset) are observed on the real engine and compared with the constant expectation of the property; they are runtime facts, not theorems",
-    "loop protection off + infinite loop blocks the host by design and is not generated; with protection off only loops that cross the deadline and then finish are run",
+    "the theorems are about the unwind model; that the engine behaves like the model is compared on the generated scenarios (all program families x configurations below), not proved",
+    "loop protection off + a loop that never ends blocks the host by design, and a loop that yields in every round (`waitthread`/`wait 0` in the body) gets a fresh deadline at every resumption: neither is generated (the model answers `hang` for them and such cases are dropped before the engine runs)",
+    "no crash = no signal, no sanitizer report (ASan + UBSan subset) during the scenario",
 ]
 
-SENTINEL = 'sentinel:\nprintln "s1"\nwait 0.5\nprintln "s2"\nend\nping:\nprintln "pong"\nend\n'
-
-INF_BODIES = [
-    "while (1) { local.i++ }",
-    "for (local.i = 0; 1; local.i++) { local.j = local.i }",
-    "l1:\nlocal.i++\ngoto l1",
-    "while (1) { local.i = local.i + 1; if (local.i > 1000000) { local.i = 0 } }",
-    "local.i = 0\nwhile (local.i >= 0) { local.i++; local.k = local.i * 2 }",
-    "while (1) { thread noop }",
-    "do { local.i++ } while (1)",
-]
-# not generated: `while (1) { waitthread noop }` / `while (1) { wait 0 }` — these *yield* (zero delay), every
-# resumption gets a fresh deadline and the scheduler loop never returns to the host; outside C14's
-# "non-yielding" class (recorded in DESIGN.md section 8 as an observation).
-
-
-def prog_inf(rng):
-    body = rng.choice(INF_BODIES)
-    return "prog:\n" + body + "\nend\nnoop:\nend\n" + SENTINEL, "inf 0"
-
-
-def prog_fin(rng, k):
-    bodies = [
-        "for (local.i = 0; local.i < %d; local.i++) { local.j = local.i }" % k,
-        "local.i = 0\nwhile (local.i < %d) { local.i++ }" % k,
-    ]
-    return "prog:\n" + rng.choice(bodies) + "\nprintln \"done\"\nend\n" + SENTINEL, "fin %d" % k
-
-
-def prog_rec(rng, k):
-    call = rng.choice(["thread", "waitthread"])
-    src = ("prog:\n%s rec %d\nend\nrec local.n:\nif (local.n > 1) { %s rec (local.n - 1) }\nend\n" % (call, k, call)) + SENTINEL
-    return src, "rec %d" % k
-
-
-def case(rng):
-    streams = "".join(rng.choice("01") for _ in range(5))
-    dev = rng.choice("01")
-    r = rng.random()
-    if r < 0.4:
-        src, kind = prog_inf(rng)
-        mx, st, prot, depth = rng.choice([1, 10, 100]), rng.choice([1, 2, 7]), 1, rng.choice([5, 20])
-    elif r < 0.65:
-        mx, st = rng.choice([1, 10, 100]), rng.choice([1, 3])
-        src, kind = prog_fin(rng, 4 * mx // st + rng.randint(5, 40))
-        prot, depth = 0, 20
-    else:
-        depth = rng.choice([1, 5, 20])
-        k = rng.choice([1, depth - 1, depth, depth + 1, depth + 3]) if depth > 1 else rng.choice([1, 2, 3])
-        src, kind = prog_rec(rng, max(1, k))
-        mx, st, prot = rng.choice([10, 100]), 0, rng.choice([0, 1])
-    late = ""
-    if rng.random() < 0.35:
-        # the same program, but it yields once first, so that the runaway / over-deep part executes in a
-        # thread resumed by the scheduler (ExecuteRunning) instead of directly under the host call
-        src = src.replace("prog:\n", "prog:\nwait 0.125\n", 1)
-        late = " late"
-    return ["c14 %s prot=%d max=%d step=%d depth=%d streams=%s dev=%s ## %s%s" % (src.encode().hex(), prot, mx, st, depth, streams, dev, kind, late)]
+# fields of an answer line the property itself speaks about; the others (clock, per-stream diagnostics,
+# m_PreviousThread) are representation: a difference there breaks the correspondence only
+RELEVANT = ("_status", "out", "cur", "depth", "idle", "cls", "thr", "vm", "tim")
 
 
 class Prop:
     def classify(self, lines, impl, crash, model):
         if crash:
-            return "violation", "the host crashed / sanitizer report during an interruption scenario: " + crash, crash
-        i = common.first_diff(impl, model)
-        a = impl[i] if i < len(impl) else "<missing>"
-        b = model[i] if i < len(model) else "<missing>"
-        cfg = lines[i].split(" ", 2)[2] if i < len(lines) else "?"
-        fa, fb = schedcheck.fields(a), schedcheck.fields(b)
-        diff = sorted(k for k in set(fa) | set(fb) if fa.get(k) != fb.get(k))
-        return "violation", "scenario `%s`: engine `%s`, required `%s`" % (cfg, a, b), "diff:" + "+".join(diff) + ":" + fa.get("outcome", "?")
+            return "violation", "the host crashed / hung / sanitizer report during an interruption scenario: " + crash, crash
+        first_other = None
+        for i in range(max(len(impl), len(model))):
+            a = impl[i] if i < len(impl) else "<missing>"
+            b = model[i] if i < len(model) else "<missing>"
+            cmd = lines[i] if i < len(lines) else "?"
+            if cmd.startswith("script "):
+                cmd = "script … ## " + cmd.split("## ", 1)[-1]
+            fa, fb = schedcheck.fields(a), schedcheck.fields(b)
+            if a != b:
+                diff = sorted(k for k in set(fa) | set(fb) if fa.get(k) != fb.get(k))
+                why = "line %d `%s`: engine `%s` vs unwind model `%s` (fields %s)" % (i, cmd, a, b, ",".join(diff))
+                rel = [k for k in diff if k in RELEVANT]
+                if rel:
+                    return "violation", why, "diff:" + "+".join(rel) + ":" + fb.get("_status", "?").replace(" ", "-")
+                if first_other is None:
+                    first_other = (why, diff)
+            if monitor(a):
+                return "violation", "line %d `%s`: engine answers `%s`: a thread is still current / the nesting counter is not back to 0 between host calls" % (i, cmd, a), "monitor:" + fa.get("cur", "?") + ":" + fa.get("depth", "?")
+        if first_other is None:
+            return "harmless", "no difference", "none"
+        why, diff = first_other
+        return "harmless", why + " — differs only in fields the property does not speak about", "diff-other:" + "+".join(diff)
+
+
+def monitor(line):
+    """property clause checked on every engine answer, independent of the model: between host calls no
+    thread is current (else ExecuteRunning never resumes anything) and the nesting counter is 0"""
+    if " depth=" not in line:
+        return False
+    f = schedcheck.fields(line)
+    return f.get("cur") != "0" or f.get("depth") != "0"
 
 
 def build(ctx):
     return common.build_full(ctx, "h_engine", ["engine.cpp"])
+
+
+def scenarios(ctx, n, salt):
+    """generate n scenarios; those the model does not finish (`hang`: outside the property's class) are dropped"""
+    rng = ctx.rng(salt)
+    cases, kinds = [], []
+    off = rng.randrange(64)
+    for i in range(n):
+        # every combination of {Output, Warn, Debug, Error, Verbose attached} x developer mode, in turn
+        lines, kind = unwindgen.scenario(rng, combo=(off + 37 * i) % 64)
+        cases.append(("scen:%s:%d:%s" % (salt, i, kind), lines))
+        kinds.append(kind)
+    allines = [l for _, c in cases for l in c]
+    out = common.run_model(AREA, allines)
+    if len(out) != len(allines):
+        raise common.CheckError("unwind driver produced %d lines for %d inputs" % (len(out), len(allines)))
+    keep, hang, pos = [], 0, 0
+    hist = {}
+    for (name, c), kind in zip(cases, kinds):
+        o = out[pos:pos + len(c)]
+        pos += len(c)
+        if any(x == "hang" or x == "ub" or x == "bad-op" for x in o):
+            hang += 1
+            continue
+        keep.append((name, c))
+        fam = kind
+        hist[fam] = hist.get(fam, 0) + 1
+        for x in o:
+            if x.startswith("err "):
+                k = "outcome:" + x.split()[1]
+                hist[k] = hist.get(k, 0) + 1
+    return keep, hang, hist
 
 
 def check(ctx):
@@ -105,23 +115,28 @@ def check(ctx):
         common.leanchecker(ctx, PROPS_MODULE)
     exe = build(ctx)
     d = Diff(ctx, prop, exe, AREA)
-    d.base_timeout = 60
-    bad = d.run_batch(schedcheck.corpus_cases("C14"))
-    rng = ctx.rng("scen")
-    n = 60 if ctx.tier == "quick" else 5000
-    batch = []
-    for i in range(n):
-        batch.append(("scen:%d" % i, case(rng)))
-        if len(batch) == 20:
-            bad += d.run_batch(batch); batch = []
-    bad += d.run_batch(batch)
-    ctx.oblige("engine outcome and recovery == guard model + required recovery on %d scenarios" % d.cases,
+    d.base_timeout = 25
+    d.line_monitor = monitor
+    bad = d.run_batch([c for c in schedcheck.corpus_cases("C14")])
+    n = 160 if ctx.tier == "quick" else 8000
+    total_hang, hist = 0, {}
+    done = 0
+    while done < n:
+        m = min(400, n - done)
+        cases, hang, h = scenarios(ctx, m, "unw%d" % done)
+        done += m
+        total_hang += hang
+        for k, v in h.items():
+            hist[k] = hist.get(k, 0) + v
+        for i in range(0, len(cases), 20):
+            bad += d.run_batch(cases[i:i + 20])
+    ctx.oblige("engine == unwind model, observation by observation, on %d scenarios (%d answer lines; monitor: no current thread, nesting counter 0 between host calls)" % (d.cases, d.lines),
                bad == 0 and d.failing_cases == 0, "%d differing" % max(bad, d.failing_cases), reported=True)
-    s = case(ctx.rng("sample"))[0]
-    ctx.samples = ["c14 <hex of: prog/rec/sentinel/ping script> " + s.split(" ", 2)[2]]
-    kinds = {}
-    cov = {"evaluations": d.cases, "distinct_nontrivial": len(d.distinct),
-           "rule": "scenario = (program template: 7 infinite-loop shapes incl. goto cycles and thread/waitthread spawning loops, finite loops crossing the deadline with protection off, thread/waitthread recursion to a chosen depth) x started directly by the host call or resumed by the scheduler after a first wait x protection x limit {1,10,100} ms x clock step x nesting limit {1,5,20} x attached-stream subsets x developer flag; every scenario is non-trivial (runs the sentinel, the program, and four recovery probes); distinct by SHA-1",
+    s, _ = unwindgen.scenario(ctx.rng("sample"))
+    ctx.samples = [l if not l.startswith("script ") else "script m <hex> ## " + l.split("## ", 1)[1] for l in s][:14]
+    cov = {"evaluations": d.cases, "answer_lines_compared": d.lines, "distinct_nontrivial": len(d.distinct),
+           "families_and_outcomes": hist, "dropped_model_hang": total_hang,
+           "rule": "scenario = abstract program of the unwind model's class (non-yielding while/for/do/goto loops with filler, thread-spawning and error-raising bodies; counted loops that cross the deadline; chains of thread/waitthread calls around the nesting limit ending in end / loop / abort / wait; mutual thread recursion; notify ping-pong with 1-3 waiters; abort raised inside a thread woken by notify with other waiters pending) rendered to script text + opcode-level abstract form, x started by the host call or resumed by the scheduler after a first wait (late) x protection on/off x limit {0,1,10,100} ms x clock step {0,1,2,3,7} x nesting limit {1,5,20} x every combination of Output/Warn/Debug/Error/Verbose stream attached or not x developer mode (all 64 in turn) x 1-3 interruptions in a row, followed by the recovery probes (sentinel due, new host call, Reset + recompile + host call); every answer line of every command is compared",
            "exhaustive": False, "skipped_after_failures": d.skipped}
     return common.finish(ctx, "proof", cov, TRUSTED, ASSUME,
                          "cd lean && lake build && #print axioms audit; python3 tools/check.py C14")
@@ -130,12 +145,13 @@ def check(ctx):
 def replay(ctx, obj):
     common.lake_build()
     exe = build(ctx)
-    d = Diff(ctx, Prop(), exe, AREA)
+    area = obj.get("area", AREA)
+    d = Diff(ctx, Prop(), exe, area)
     d.base_timeout = 60
     impl, crash, info, model = d.both(obj["lines"])
     print("impl :", impl, "\nmodel:", model)
     if crash:
         print("CRASH", crash); print(info)
-    bad = crash is not None or common.first_diff(impl, model) is not None
+    bad = crash is not None or common.first_diff(impl, model) is not None or any(monitor(l) for l in impl)
     print("replay:", "still differs" if bad else "no difference")
     return 1 if bad else 0
